@@ -19,10 +19,6 @@ Definition V_DIVERGE : N := 2.
 Definition V_MALFORMED : N := 9.
 (* K-Q128: a query / form field of type u128 or i128 is refused whatever its value *)
 Definition V_K128 : N := 191.
-(* K-MPOWS: optional white space around ';' in a multipart content type *)
-Definition V_KOWS : N := 192.
-(* K-JSONTRAIL: a JSON document followed by further non-blank bytes is accepted *)
-Definition V_KJSON : N := 193.
 
 Inductive rinfo := RI (method uri : str) (marker : option str) (port : N).
 
@@ -39,13 +35,11 @@ Inductive ccase :=
 | CQuery (sp : spec) (q : option str) (intended : option (list fval)) (rq : rinfo) (o : obs)
 | CForm (sp : spec) (ct : hdr) (cap : N) (frames : list str) (intended : option (list fval))
         (rq : rinfo) (o : obs)
-  (* [oracle]: what serde_json makes of the concatenated frames when called
-     the way dropshot calls it (one value deserialised off the front of the
-     buffer, no [Deserializer::end()]), obtained by calling the library
-     directly (the parser is a Section variable of the theorems);
-     [strict_ok]: whether the WHOLE buffer is one JSON text of the type
-     ([serde_json::from_slice]) - the specification's notion of well-formed *)
-| CJson (ct : hdr) (cap : N) (frames : list str) (oracle : option named) (strict_ok : bool)
+  (* [oracle]: what serde_json makes of the concatenated frames as ONE JSON
+     document ([serde_json::from_slice]: a value, then end of input - what
+     body.rs does), obtained by calling the library directly (the parser is a
+     Section variable of the theorems) *)
+| CJson (ct : hdr) (cap : N) (frames : list str) (oracle : option named)
         (intended : option named) (rq : rinfo) (o : obs)
 | CRaw (streaming : bool) (ct : hdr) (cap : N) (frames : list str) (rq : rinfo) (o : obs)
 | CMultipart (ct : hdr) (cap : N) (frames : list str)
@@ -133,81 +127,6 @@ Definition verdict_malformed {A} (o : obs) (m : res xerr A) : N :=
       else V_VIOLATION
   end.
 
-(* ---------- a liberal reading of the Content-Type grammar (RFC 9110
-   media-type = type "/" subtype *( OWS ";" OWS [ parameter ] ),
-   parameter = token "=" ( token / quoted-string )) - used only to recognise
-   the known class K-MPOWS, never as the model ---------- *)
-
-Definition is_ows (c : N) : bool := (c =? 32) || (c =? 9).
-Fixpoint skip_ows (s : str) : str :=
-  match s with
-  | c :: t => if is_ows c then skip_ows t else s
-  | [] => []
-  end.
-
-Fixpoint rfc_quoted (s acc : str) : option (str * str) :=
-  match s with
-  | [] => None
-  | c :: t =>
-      if c =? 34 then Some (rev acc, t)
-      else if c =? 92 then
-        match t with
-        | c' :: t' => rfc_quoted t' (c' :: acc)
-        | [] => None
-        end
-      else rfc_quoted t (c :: acc)
-  end.
-
-Fixpoint rfc_params (fuel : nat) (s : str) (acc : list (str * str)) : option (list (str * str)) :=
-  match fuel with
-  | O => None
-  | S f =>
-      match skip_ows s with
-      | [] => Some (rev acc)
-      | c :: t =>
-          if negb (c =? 59) then None else
-          let t := skip_ows t in
-          match t with
-          | [] => Some (rev acc)
-          | c1 :: _ =>
-              if c1 =? 59 then rfc_params f t acc else
-              let (nm, r) := span is_token t in
-              match r with
-              | c2 :: r1 =>
-                  if negb (c2 =? 61) || is_nil nm then None else
-                  match r1 with
-                  | c3 :: qs =>
-                      if c3 =? 34 then
-                        match rfc_quoted qs [] with
-                        | Some (v, r2) => rfc_params f r2 ((str_lower nm, v) :: acc)
-                        | None => None
-                        end
-                      else
-                        let (v, r2) := span is_token r1 in
-                        if is_nil v then None else rfc_params f r2 ((str_lower nm, v) :: acc)
-                  | [] => None
-                  end
-              | [] => None
-              end
-          end
-      end
-  end.
-
-Definition rfc_boundary (ct : str) : option str :=
-  let (ty, r) := span is_token ct in
-  match r with
-  | c :: r1 =>
-      if negb (c =? 47) then None else
-      let (sub, r2) := span is_token r1 in
-      if str_eqb (str_lower ty) S_MULTIPART && str_eqb (str_lower sub) S_FORM_DATA then
-        match rfc_params (S (S (length r2))) r2 [] with
-        | Some ps => assoc S_BOUNDARY ps
-        | None => None
-        end
-      else None
-  | [] => None
-  end.
-
 (* ---------- the judge ---------- *)
 
 Definition is_unsupported128 (e : xerr) : bool :=
@@ -258,28 +177,13 @@ Definition judge (c : ccase) : N :=
           end
       | None => verdict_malformed o m
       end
-  | CJson ct cap frames oracle strict_ok intended rq o =>
+  | CJson ct cap frames oracle intended rq o =>
       let m := extract_typed_body (oracle_fn oracle) CtJson [] ct cap frames in
       match intended with
       | Some v =>
           verdict_valid (spec_delivered o rq [v] None None)
             (match m with Ok (TJson v') => list_eqb named_eqb (echoed o) [v'] | _ => false end)
-      | None =>
-          if strict_ok && is_ok m then V_MALFORMED     (* a well-formed document, accepted *)
-          else if spec_refused true o then
-            match m with
-            | Err e => if option_eqb N.eqb (obs_status o) (xerr_status e) then V_AGREE else V_DIVERGE
-            | Ok _ => V_DIVERGE
-            end
-          else
-            (* not refused.  Known class: the buffer is not a JSON text, but a
-               JSON text of the type followed by trailing bytes; the front
-               parser (hence the model) accepts, and so did the server *)
-            match m, o with
-            | Ok (TJson v'), OOk true ss _ _ _ _ =>
-                if negb strict_ok && list_eqb named_eqb ss [v'] then V_KJSON else V_VIOLATION
-            | _, _ => V_VIOLATION
-            end
+      | None => verdict_malformed o m
       end
   | CRaw streaming ct cap frames rq o =>
       let spec := spec_delivered o rq [] (Some (concat frames)) None in
@@ -305,14 +209,7 @@ Definition judge (c : ccase) : N :=
               (* relative to multer's contract: with the right boundary the
                  parts come out; so the model agrees iff it found the boundary *)
               verdict_valid spec (str_eqb b b')
-          | Err e =>
-              if negb spec && refused_cleanly o &&
-                 match e, ct with
-                 | XMimeParse, HVal v => option_eqb str_eqb (rfc_boundary v) (Some b)
-                 | _, _ => false
-                 end
-              then V_KOWS
-              else verdict_valid spec false
+          | Err _ => verdict_valid spec false
           end
       | None => verdict_malformed o m
       end
@@ -338,7 +235,7 @@ Definition judge (c : ccase) : N :=
 Definition is_valid_stream (c : ccase) : bool :=
   match c with
   | CPath _ _ (Some _) _ _ | CQuery _ _ (Some _) _ _ | CForm _ _ _ _ (Some _) _ _
-  | CJson _ _ _ _ _ (Some _) _ _ | CRaw _ _ _ _ _ _ | CMultipart _ _ _ (Some _) _ _
+  | CJson _ _ _ _ (Some _) _ _ | CRaw _ _ _ _ _ _ | CMultipart _ _ _ (Some _) _ _
   | CAll _ _ _ _ _ _ _ _ (Some _) _ _ => true
   | _ => false
   end.
